@@ -16,6 +16,10 @@ type Opts struct {
 	// NamedSlices: parameters that receive a list are declared with the named
 	// types nodesT / toksT (assignable from, but not identical to, []*nodeT / []Token).
 	NamedSlices bool
+	// BoundsLayout places _onBounds among the parser type's methods: 0 = before the
+	// actions, 1 = after the actions followed by an unrelated helper method, 2 = between
+	// the actions with helper methods on both sides.
+	BoundsLayout int
 }
 
 // ParamType is the declared parameter type for a term under o.
@@ -277,15 +281,23 @@ func Run(toks []int, limit int) (r Result) {
 func UserGo(g *G, o Opts) string {
 	var b strings.Builder
 	b.WriteString(prelude)
-	if o.OnBounds {
-		b.WriteString(`
+	const onBoundsSrc = `
 func (p *prs) _onBounds(r any, begin, end Token) {
 	p.step()
 	p.log = append(p.log, "B"+show(r)+"@"+itoa(begin.Idx)+":"+itoa(end.Idx))
 }
-`)
+`
+	if o.OnBounds && o.BoundsLayout == 0 {
+		b.WriteString(onBoundsSrc)
 	}
+	nRules := len(g.Rules)
+	defer func() {}()
 	for ri, r := range g.Rules {
+		if o.OnBounds && o.BoundsLayout == 2 && ri == nRules/2 {
+			b.WriteString("\nfunc (p *prs) helperBefore() int { return p.seq }\n")
+			b.WriteString(onBoundsSrc)
+			b.WriteString("\nfunc (p *prs) helperBetween() int { return p.steps }\n")
+		}
 		seen := map[string]bool{}
 		for _, p := range r.Prods {
 			var params, kids, sig []string
@@ -317,6 +329,10 @@ func (p *prs) _onBounds(r any, begin, end Token) {
 			}
 			b.WriteString("\treturn n\n}\n")
 		}
+	}
+	if o.OnBounds && o.BoundsLayout == 1 {
+		b.WriteString(onBoundsSrc)
+		b.WriteString("\nfunc (p *prs) zzHelperAfter() int { return p.reads }\n")
 	}
 	return b.String()
 }
